@@ -341,6 +341,36 @@ func hasRanking(fn *ssa.Function, hd *ssa.BasicBlock) (string, bool) {
 			}
 		}
 	}
+	// rotated loops (range-over-int, do-while shapes): the continuation test sits on the back edge and compares the
+	// next value of a header φ with a bound computed outside the loop — the measure is bound − φ
+	loopBlocks := naturalLoop(hd)
+	for e, pr := range hd.Preds {
+		if !(pr == hd || hd.Dominates(pr)) {
+			continue
+		}
+		i, ok := lastInstr(pr).(*ssa.If)
+		if !ok {
+			continue
+		}
+		b, ok := i.Cond.(*ssa.BinOp)
+		if !ok || (b.Op != token.LSS && b.Op != token.LEQ) || pr.Succs[0] != hd {
+			continue
+		}
+		if in, isIn := b.Y.(ssa.Instruction); isIn && loopBlocks[in.Block()] {
+			continue
+		}
+		for _, ph := range intPhis {
+			if ph.Edges[e] != b.X {
+				continue
+			}
+			ph, y := ph, b.Y
+			extra := int64(0)
+			if b.Op == token.LEQ {
+				extra = 1
+			}
+			ms = append(ms, measure{describe(y) + " − " + describe(ph), func(p *prover) linExpr { return p.lin(y).add(p.lin(ph), -1).add(newLin(extra), 1) }})
+		}
+	}
 	for _, s := range seqPhis {
 		s := s
 		ms = append(ms, measure{"len(" + describe(s) + ")", func(p *prover) linExpr { return p.lenOf(s) }})
